@@ -394,14 +394,20 @@ func judge(c *Cell, ep *Endpoint, cluster bool, resp Resp, stmts []StmtRec, reru
 				if it == nil || it.Marker[1] != fam {
 					continue
 				}
-				if typeOK(ep, it) && ep.Allowed(w, it.Ts) {
+				rts := c.RowTs(sc.Table, r, it)
+				if typeOK(ep, it) && ep.Allowed(w, rts) {
 					continue
 				}
 				if leaked[it.Idx] {
 					continue // already reported through the response
 				}
-				add("scan_"+baseName(sc.Table)+"_admits:"+explainLeak(ep, w, it),
-					fmt.Sprintf("statement #%d admits row of %s (class %s, %s, type %s) from %s: %s", si+1, it.Marker, it.Class, tsStr(it.Ts), typeName(it.Type), sc.Table, short(s.SQL)))
+				rowIt := *it
+				rowIt.Ts = rts
+				if rts != it.Ts {
+					rowIt.Class = "older_sample_of_" + it.Class
+				}
+				add("scan_"+baseName(sc.Table)+"_admits:"+explainLeak(ep, w, &rowIt),
+					fmt.Sprintf("statement #%d admits row of %s (class %s, %s, type %s) from %s: %s", si+1, it.Marker, rowIt.Class, tsStr(rts), typeName(it.Type), sc.Table, short(s.SQL)))
 			}
 		}
 	}
